@@ -201,6 +201,16 @@ def judge (e : Expect) (impl : List String) : String :=
       | some (M, []) => judgeOut e.name e.K e.int o M
       | _ => "FAIL:parse") "ok"
 
+/-- `judge`, preceded by the clause of the known finding `C04-degenerate-shape-storage-dependence`:
+`mconf` is the conformability of the operands as matrices (the dimensions on the wire), `e.conf` the
+one the routine sees through the dimensions *reported* by the storage classes; they differ only when
+an operand with exactly one zero dimension is stored by rows or by columns (it reports 0x0), and then
+whether the call raises depends on the class -/
+def judgeDep (mconf : Bool) (e : Expect) (impl : List String) : String :=
+  if isCrash impl then judge e impl
+  else if mconf != e.conf then "FAIL:storage_independent_degenerate"
+  else judge e impl
+
 /-! ## state -/
 
 structure St where
@@ -592,7 +602,7 @@ def stepMult (st : St) (w : String) (rest : List String) (impl : Option (List St
     let A := toStore (st.kin 0) MA; let B := toStore (st.kin 1) MB
     let n := A.ncols
     pure (showRes (mult A B st.O),
-      vOfImpl impl (judge ⟨"mult", A.ncols == B.nrows, [mkOut st.kO A.nrows B.ncols (Spec.mult MA.q MB.q n) (Spec.mult MA.m MB.m n)], n + 2,
+      vOfImpl impl (judgeDep (MA.c == MB.r) ⟨"mult", A.ncols == B.nrows, [mkOut st.kO A.nrows B.ncols (Spec.mult MA.q MB.q n) (Spec.mult MA.m MB.m n)], n + 2,
         MA.fin && MB.fin, MA.int && MB.int, true⟩))
   | "multc" => do
     let (MA, MiA, MB, MiB) ← runP (do let a ← pMat; let ia ← pMat; let b ← pMat; let ib ← pMat; pEnd; pure (a, ia, b, ib)) rest
@@ -647,13 +657,13 @@ def stepMult (st : St) (w : String) (rest : List String) (impl : Option (List St
     let (MA, MB) ← runP (do let a ← pMat; let b ← pMat; pEnd; pure (a, b)) rest
     let A := toStore (st.kin 0) MA; let B := toStore (st.kin 1) MB
     pure (showRes (add A B),
-      vOfImpl impl (judge ⟨"add", sameDims A B, [mkOut (st.kin 0) A.nrows A.ncols (Spec.add MA.q MB.q) (Spec.add MA.m MB.m)], 2,
+      vOfImpl impl (judgeDep (MA.r == MB.r && MA.c == MB.c) ⟨"add", sameDims A B, [mkOut (st.kin 0) A.nrows A.ncols (Spec.add MA.q MB.q) (Spec.add MA.m MB.m)], 2,
         MA.fin && MB.fin, MA.int && MB.int, true⟩))
   | "adds" => do
     let (MA, x, MB) ← runP (do let a ← pMat; let x ← pFlt; let b ← pMat; pEnd; pure (a, x, b)) rest
     let A := toStore (st.kin 0) MA; let B := toStore (st.kin 1) MB
     pure (showRes (addS A x B),
-      vOfImpl impl (judge ⟨"addScaled", sameDims A B, [mkOut (st.kin 0) A.nrows A.ncols (Spec.addS MA.q (rq x) MB.q) (Spec.addS MA.m (rm x) MB.m)], 3,
+      vOfImpl impl (judgeDep (MA.r == MB.r && MA.c == MB.c) ⟨"addScaled", sameDims A B, [mkOut (st.kin 0) A.nrows A.ncols (Spec.addS MA.q (rq x) MB.q) (Spec.addS MA.m (rm x) MB.m)], 3,
         MA.fin && MB.fin && finite x, MA.int && MB.int && isInt x, true⟩))
   | _ => none
 
@@ -697,7 +707,7 @@ def stepProd (st : St) (w : String) (rest : List String) (impl : Option (List St
     let (MA, MB) ← runP (do let a ← pMat; let b ← pMat; pEnd; pure (a, b)) rest
     let A := toStore (st.kin 0) MA; let B := toStore (st.kin 1) MB
     pure (showRes (had A B st.O),
-      vOfImpl impl (judge ⟨"hadamard", sameDims A B, [mkOut st.kO A.nrows A.ncols (Spec.had MA.q MB.q) (Spec.had MA.m MB.m)], 2,
+      vOfImpl impl (judgeDep (MA.r == MB.r && MA.c == MB.c) ⟨"hadamard", sameDims A B, [mkOut st.kO A.nrows A.ncols (Spec.had MA.q MB.q) (Spec.had MA.m MB.m)], 2,
         MA.fin && MB.fin, MA.int && MB.int, true⟩))
   | "hadc" => do
     let (MA, MiA, MB, MiB) ← runP (do let a ← pMat; let ia ← pMat; let b ← pMat; let ib ← pMat; pEnd; pure (a, ia, b, ib)) rest
